@@ -5,6 +5,7 @@ package main
 
 import (
 	"encoding/hex"
+	"errors"
 	"encoding/json"
 	"flag"
 	"fmt"
@@ -739,7 +740,14 @@ type c14desc struct {
 	// Backlog: the index consumer is stalled inside Index.Key (first index task) while ONE writer goroutine
 	// issues all mutations of the segment (more than the task queue holds), then released.
 	Backlog bool   `json:"backlog"`
-	Subs    []subT `json:"subs"`
+	// Inject: AffectedResources of "t.p.$x" also returns a resource whose resourceEvent fails (alternately a
+	// name no handler serves and a parameter the RequestHandler rejects): 0 never, 1 first, 2 last, 3 between
+	// the genuine ones, 4 rotating through 1-3 from call to call.
+	Inject int    `json:"inject_failing_resource"`
+	Subs   []subT `json:"subs"`
+	// observations only (not an input): AffectedResources calls where a resource announced before the failing
+	// one was not reset (legitimate when the change does not affect it)
+	NoReset []interface{} `json:"observed_not_reset_before_failing,omitempty"`
 }
 
 type cbRec struct {
@@ -752,6 +760,13 @@ type cbRec struct {
 
 type pubRec struct{ kind, rid string }
 
+type ar2call struct {
+	change string
+	rids   []string
+	fail   int // index of the failing resource, -1 none
+	pos    int
+}
+
 type respRec struct {
 	sub, evt, kind int
 	val            string // Coq term of the rvalue
@@ -762,6 +777,8 @@ type segRec struct {
 	cbs     []cbRec
 	pubs    []pubRec
 	ar2     []string
+	ar2pos  []int
+	ar2log  []ar2call
 	ar4     []string
 	resps   []respRec
 }
@@ -960,6 +977,14 @@ func parseResp(b []byte, ok bool) (int, string) {
 
 func itemRef(id string) string { return "t.item." + id }
 
+func natList(xs []int) string {
+	ys := make([]string, len(xs))
+	for i, x := range xs {
+		ys[i] = Nat(x)
+	}
+	return List(ys)
+}
+
 func firstByteRID(k []byte) (string, bool) {
 	if len(k) == 0 {
 		return "", false
@@ -1005,6 +1030,7 @@ func runC14(d c14desc, dist map[string]int, impl *[]ImplViolation) Case {
 	var conn *rconn
 	var logErrs int32
 	evtCount := map[string]int{}
+	arCalls := 0
 	var pending []func()
 	if d.Handlers {
 		svc = res.NewService("t")
@@ -1017,6 +1043,9 @@ func runC14(d c14desc, dist map[string]int, impl *[]ImplViolation) Case {
 		svc.Handle("p.$x", res.Collection, store.QueryHandler{QueryStore: e.qs,
 			Transformer: store.IDToRIDCollectionTransformer(itemRef),
 			RequestHandler: func(rname string, pp map[string]string) (url.Values, error) {
+				if _, err := hex.DecodeString(pp["x"]); err != nil {
+					return nil, errors.New("invalid path parameter")
+				}
 				return qd{P: pp["x"], L: -1}.values(), nil
 			},
 			AffectedResources: func(p res.Pattern, qc store.QueryChange) []string {
@@ -1027,12 +1056,36 @@ func runC14(d c14desc, dist map[string]int, impl *[]ImplViolation) Case {
 					}
 					if rid, ok := firstByteRID(keyA(v)); ok {
 						rids = append(rids, rid)
-						recs = append(recs, "("+B(rid)+","+qd{P: rid[len("t.p."):], L: -1}.coq()+")")
+						recs = append(recs, "("+B(rid)+",(Some "+qd{P: rid[len("t.p."):], L: -1}.coq()+"))")
 					}
 				}
 				mu.Lock()
+				defer mu.Unlock()
+				fail := -1
+				if d.Inject != 0 {
+					arCalls++
+					bad := "t.nosuch.x" // no handler serves it: Service.Resource fails
+					if arCalls%2 == 0 {
+						bad = "t.p.zz" // served, but the RequestHandler rejects the parameter
+					}
+					mode := d.Inject
+					if mode == 4 {
+						mode = 1 + arCalls%3
+					}
+					switch {
+					case mode == 1:
+						fail = 0
+					case mode == 3 && len(rids) >= 2:
+						fail = 1
+					default:
+						fail = len(rids)
+					}
+					rids = append(rids[:fail:fail], append([]string{bad}, rids[fail:]...)...)
+					recs = append(recs[:fail:fail], append([]string{"(" + B(bad) + ",None)"}, recs[fail:]...)...)
+				}
 				seg.ar2 = append(seg.ar2, List(recs))
-				mu.Unlock()
+				seg.ar2pos = append(seg.ar2pos, len(seg.pubs))
+				seg.ar2log = append(seg.ar2log, ar2call{change: qc.ID(), rids: append([]string{}, rids...), fail: fail, pos: len(seg.pubs)})
 				return rids
 			}})
 		svc.Handle("q", res.Collection, store.QueryHandler{QueryStore: e.qs,
@@ -1253,8 +1306,32 @@ func runC14(d c14desc, dist map[string]int, impl *[]ImplViolation) Case {
 				nRespNo++
 			}
 		}
-		segTerms = append(segTerms, fmt.Sprintf("SG %s %s %s %s %s %s %s %s %s", List(mts), List(cur.changes), List(cbs), List(results),
-			List(pubs), List(cur.ar2), List(cur.ar4), List(resps), List(fr)))
+		segTerms = append(segTerms, fmt.Sprintf("SG %s %s %s %s %s %s %s %s %s %s", List(mts), List(cur.changes), List(cbs), List(results),
+			List(pubs), List(cur.ar2), natList(cur.ar2pos), List(cur.ar4), List(resps), List(fr)))
+		// for the replay: announced-before-failing resources that got no reset
+		for _, a := range cur.ar2log {
+			if a.fail <= 0 {
+				continue
+			}
+			got := map[string]bool{}
+			for _, p := range cur.pubs[a.pos:] {
+				if p.kind != "PReset" {
+					break
+				}
+				got[p.rid] = true
+			}
+			for _, rid := range a.rids[:a.fail] {
+				if !got[rid] && len(d.NoReset) < 6 {
+					d.NoReset = append(d.NoReset, map[string]interface{}{"change_id": a.change, "affected_resources": a.rids, "failing": a.rids[a.fail], "not_reset": rid})
+				}
+			}
+			dist["affected_resources_calls_with_failing_after_genuine"]++
+		}
+		for _, a := range cur.ar2log {
+			if a.fail == 0 {
+				dist["affected_resources_calls_with_failing_first"]++
+			}
+		}
 		mu.Unlock()
 	}
 	sawNull := false
@@ -1280,7 +1357,7 @@ func runC14(d c14desc, dist map[string]int, impl *[]ImplViolation) Case {
 	}
 	var c Case
 	c.Desc = d
-	c.Term = fmt.Sprintf("C14 %s %s %s %s %s", List(qsT), Bool(d.Handlers), Bool(d.Delayed), List(subsT), List(segTerms))
+	c.Term = fmt.Sprintf("C14 %s %s %s %s %s %s", List(qsT), Bool(d.Handlers), Bool(d.Delayed), Bool(d.Inject != 0), List(subsT), List(segTerms))
 	c.Nontrivial = nAffT > 0 && nAffF > 0
 	if nilkey {
 		c.Tags = append(c.Tags, "nilkey-empty-prefix")
@@ -1351,6 +1428,9 @@ func genC14(r *Rng, i int, thorough bool) c14desc {
 	qs[0] = qd{I: 1, P: "", F: 1, O: 0, L: -1}
 	qs[1] = qd{I: 0, P: "", F: 0, O: 0, L: -1}
 	d := c14desc{Segs: segs, Queries: qs, Handlers: i%5 != 4, Delayed: i%2 == 1}
+	if d.Handlers && i%3 != 0 {
+		d.Inject = 1 + (i/3)%4
+	}
 	if d.Handlers {
 		cq := func(q qd, dropI bool) string {
 			v := q.values()
@@ -1436,7 +1516,7 @@ func mainC14(o Opts) {
 	}
 	dist["responses_with_null_collection"] = int(nullCollections)
 	Emit(o, "C14", "From GoRes Require Import Run.Run_C14.", "c14case",
-		"random mutation histories (as C13) cut into segments (single mutations / runs of 1-5 / one run), QueryStore.Flush after each segment; two recording OnQueryChange callbacks that run 8 (thorough 16) index queries and Events() inside the callback; Store.OnChange reports; in 4 of 5 histories a res.Service with four store.QueryHandler resources (ordinary / query resource x without / with path parameters and AffectedResources; IDToRIDCollectionTransformer on the ordinary path-parameter collection, IDToRIDModelTransformer on the query model with a path parameter) on a recording connection playing the gateway (query requests for every subscribed client query, sent at once or - every second history - only after all mutations of the segment were indexed; fresh gets after each segment); plus backlog histories: one writer goroutine issues 300-600 (thorough up to 2000) mutations over the 4 ids while the index consumer is stalled inside Index.Key, so the 256-slot task queue fills up, then the consumer is released; non-trivial = some Events() call reported affected and some unaffected; distinct by (segments, queries, subscriptions)",
+		"random mutation histories (as C13) cut into segments (single mutations / runs of 1-5 / one run), QueryStore.Flush after each segment; two recording OnQueryChange callbacks that run 8 (thorough 16) index queries and Events() inside the callback; Store.OnChange reports; in 4 of 5 histories a res.Service with four store.QueryHandler resources (ordinary / query resource x without / with path parameters and AffectedResources; IDToRIDCollectionTransformer on the ordinary path-parameter collection, IDToRIDModelTransformer on the query model with a path parameter) on a recording connection playing the gateway (query requests for every subscribed client query, sent at once or - every second history - only after all mutations of the segment were indexed; fresh gets after each segment); in two thirds of the handler histories AffectedResources of the ordinary path-parameter resource also returns a resource whose resourceEvent fails (unknown name / rejected parameter) first, last, in the middle or rotating; plus backlog histories: one writer goroutine issues 300-600 (thorough up to 2000) mutations over the 4 ids while the index consumer is stalled inside Index.Key, so the 256-slot task queue fills up, then the consumer is released; non-trivial = some Events() call reported affected and some unaffected; distinct by (segments, queries, subscriptions)",
 		cases, dist, nil, impl, 25)
 }
 
